@@ -349,7 +349,7 @@ func TestProp(t *testing.T) {
 		wg.Add(1)
 		go func() {
 			defer wg.Done()
-			vh.ForEach(len(specs)+nMut, 6, only, func(i int) {
+			vh.ForEach(len(specs)+nMut, 12, only, func(i int) {
 				r := vh.CaseRNG(env.Seed, name, i)
 				id := mkIDs(sm.prov, sm.siteName, i, r)
 				var k kase
